@@ -41,8 +41,8 @@ fn change_one_char(s: &str) -> String {
 
 fn session(name: &str, user: &str, pass: &str, seed: u64) -> Session {
     let salt = refmodel::ctr_array::<32>(seed, &format!("c02-salt-{name}"));
-    let b = refmodel::ctr_array::<32>(seed, &format!("c02-b-{name}"));
-    let a = refmodel::ctr_array::<32>(seed, &format!("c02-a-{name}"));
+    let b = ordinary_key(seed, &format!("c02-b-{name}"));
+    let a = ordinary_key(seed, &format!("c02-a-{name}"));
     session_from(name, user, pass, salt, b, a)
 }
 
@@ -389,6 +389,9 @@ pub fn run(tier: Tier, seed: u64) -> i32 {
         let ws = crate::logins::load_witnesses();
         let mut n_w = 0u64;
         for (class, case) in ws.iter().filter(|(c, _)| c.starts_with("S-")) {
+            if !login_inputs_taken_as_is(&case.salt, &case.b, &case.a) {
+                continue;
+            }
             let s = session_from(&format!("witness-{class}"), &case.reg_user, &case.reg_pass, case.salt, case.b, case.a);
             total += run_plan(&s, if n_w < tier.pick(3, 100) { 1 } else { 0 }, &report);
             n_w += 1;
@@ -399,7 +402,7 @@ pub fn run(tier: Tier, seed: u64) -> i32 {
     // sessions whose private keys are tiny (1, 2) or huge (N-1, all ones): shortcuts for "trivial" exponents live there
     {
         let salt = refmodel::ctr_array::<32>(seed, "c02-special-salt");
-        let ordinary = refmodel::ctr_array::<32>(seed, "c02-special-key");
+        let ordinary = ordinary_key(seed, "c02-special-key");
         let mut n_sp = 0u64;
         for (i, (b, a)) in [(le32_from_u64(1), ordinary), (ordinary, le32_from_u64(1)), (le32_from_u64(2), le32_from_u64(2)), (n_plus(-1), ordinary), (ordinary, [0xFF; 32]), (le32_from_u64(1), le32_from_u64(1))].into_iter().enumerate() {
             if !login_inputs_taken_as_is(&salt, &b, &a) {
@@ -534,8 +537,8 @@ pub fn run(tier: Tier, seed: u64) -> i32 {
                     typed_user: tu,
                     typed_pass: tp,
                     salt: refmodel::ctr_array::<32>(seed, &format!("c02-conf-salt-{ri}")),
-                    b: refmodel::ctr_array::<32>(seed, &format!("c02-conf-b-{ri}-{ti}")),
-                    a: refmodel::ctr_array::<32>(seed, &format!("c02-conf-a-{ri}-{ti}")),
+                    b: ordinary_key(seed, &format!("c02-conf-b-{ri}-{ti}")),
+                    a: ordinary_key(seed, &format!("c02-conf-a-{ri}-{ti}")),
                     storage_roundtrip: ti % 2 == 1,
                 };
                 let r = real_login(&li);
